@@ -165,7 +165,7 @@ def oracle(case, res):
             return f'presented {counts}, fewer than requested {req}'
         # first moment: before the last presentation some stimulus was still unsatisfied
         before = [keys[:-1].count(k) for k in range(n)]
-        if all(b >= r for b, r in zip(before, req)):
+        if keys and all(b >= r for b, r in zip(before, req)):
             return f'kept presenting after every stimulus was satisfied: {keys}'
     # order
     ref = qc.reference_order(case)
